@@ -440,6 +440,31 @@ fn relation(now: (i64, i64), e: i64) -> &'static str {
     }
 }
 
+/// The library panicked on (document, offset).  C05 requires that a missing / valueless /
+/// unparseable `to` and an unparseable offset merely keep the element: if the panic disappears
+/// once every non-canonical `to` is replaced by a canonical far-future value, or once the
+/// offset is replaced by a canonical one, the malformed value is what the evaluation choked on
+/// and that is a violation of C05; otherwise it is a totality matter (C01) and unevaluable.
+fn panic_is_due_to_malformed_value(scn: &C05Scn, offset_str: &str, now: (i64, i64)) -> Option<&'static str> {
+    let mut d = scn.doc.clone();
+    let mut changed = false;
+    for e in d.elems_mut() {
+        if !matches!(classify_to(&e.to), Class::Canonical(_)) {
+            e.to = Some(AttrVal::Val("9999-01-01 00:00:00".into()));
+            changed = true;
+        }
+    }
+    if changed && lib_call(&d.render(), &d, offset_str, now, &BTreeSet::new(), Mode::Clean, false).is_ok() {
+        return Some("panic-on-malformed-to");
+    }
+    if !matches!(classify_offset(offset_str), Class::Canonical(_))
+        && lib_call(&scn.doc.render(), &scn.doc, "+00:00", now, &BTreeSet::new(), Mode::Clean, false).is_ok()
+    {
+        return Some("panic-on-malformed-offset");
+    }
+    None
+}
+
 fn offset_of(scn: &C05Scn, r: &Run) -> String {
     r.offset_override.clone().or_else(|| scn.offset.clone()).unwrap_or_else(|| "+00:00".to_string())
 }
@@ -489,6 +514,14 @@ pub fn run(scn: &C05Scn, stats: &mut RunStats) -> Option<Violation> {
                     (o.clone().into_bytes(), None, r.now)
                 }
                 Err(_) => {
+                    if let Some(sig) = panic_is_due_to_malformed_value(scn, &offset_str, r.now) {
+                        return fail(
+                            "C05.malformed_value_keeps_the_element",
+                            sig.to_string(),
+                            format!("call {} (library session, now={:?}, offset {:?}): the library panics, and does not once the malformed `to` values / offset are replaced by canonical ones", k, r.now, offset_str),
+                            k,
+                        );
+                    }
                     stats.unevaluable = true;
                     stats.bump("unevaluable_library_panics");
                     return None;
@@ -511,6 +544,14 @@ pub fn run(scn: &C05Scn, stats: &mut RunStats) -> Option<Violation> {
                 Status::Exit(0) => {}
                 other => {
                     if lib_call(&text, &scn.doc, &offset_str, r.now, &BTreeSet::new(), Mode::Clean, false).is_err() {
+                        if let Some(sig) = panic_is_due_to_malformed_value(scn, &offset_str, r.now) {
+                            return fail(
+                                "C05.malformed_value_keeps_the_element",
+                                sig.to_string(),
+                                format!("run {} (now={:?}, offset {:?}) ended with {:?}: the library panics, and does not once the malformed `to` values / offset are replaced by canonical ones", k, r.now, offset_str, other),
+                                k,
+                            );
+                        }
                         stats.unevaluable = true;
                         stats.bump("unevaluable_library_panics");
                         return None;
